@@ -103,6 +103,23 @@ struct Sys {
         if (memcmp(code.text_section()->data() + start, dst.data() + 32, sz) != 0) { why = "embed_const_pool bytes differ from fill()"; return false; }
       }
     }
+    // the same with a code buffer that has to grow (and move) while the pool is embedded
+    if (sz) {
+      CodeHolder code; Environment env(Arch::kX64); code.init(env);
+      x86::Assembler a(&code);
+      a.db(0x90);
+      size_t cap = code.text_section()->buffer().capacity();
+      std::vector<uint8_t> fillb(cap - 1 - 3, 0x90);          // leaves 3 bytes: alignment padding + pool never fit
+      if (a.embed(fillb.data(), fillb.size()) != Error::kOk) { why = "harness: filler embed failed"; return false; }
+      Label L = a.new_label();
+      Error err = a.embed_const_pool(L, pool);
+      if (err != Error::kOk) { why = "embed_const_pool failed when the buffer had to grow"; return false; }
+      size_t al = pool.alignment() ? pool.alignment() : 1;
+      size_t start = (cap - 3 + al - 1) / al * al;
+      if (code.label_offset(L) != start) { why = "embed_const_pool (growing buffer): label not at aligned start"; return false; }
+      if (code.text_section()->buffer_size() != start + sz) { why = "embed_const_pool (growing buffer): size mismatch"; return false; }
+      if (memcmp(code.text_section()->data() + start, dst.data() + 32, sz) != 0) { why = "embed_const_pool bytes differ from fill() when the code buffer grows during the call"; return false; }
+    }
     // stability + dedup: re-adding every earlier constant returns the offset returned first
     for (auto& e : model) {
       size_t off = ~size_t(0);
